@@ -13,9 +13,12 @@ for sid in sorted(os.listdir(os.path.join(V, "seeded"))):
         for t, v in tiers.items():
             if isinstance(v, dict) and v.get("exit") == 1:
                 caught = f"{p} {t}: `{(v.get('keys') or ['?'])[0]}`"
-                if t == "quick": q += 1
+                if t == "quick" and not m.get("neutralised_by_fix"): q += 1
                 break
         if caught != "**missed**": break
+    if m.get("neutralised_by_fix"):
+        caught = "no longer a violation: " + m["neutralised_by_fix"].split(":")[0] + " repaired the path it relied on; every check is silent on it, as it must be (selftest/benign/R5)"
+        n -= 1
     n += 1
     def cut(s, k):
         s = (s or "").replace("|", "/").replace("\n", " ")
